@@ -428,6 +428,12 @@ fn one_case(ctx: &Ctx, case: u64, l: &mut Local) {
             if let Some(st) = s.strip_suffix('/') {
                 v.push(st.to_string());
             }
+            // the case of ONE letter flipped (the first and the last letter of the text)
+            for at in [s.char_indices().find(|(_, c)| c.is_ascii_alphabetic()), s.char_indices().rev().find(|(_, c)| c.is_ascii_alphabetic())].into_iter().flatten() {
+                let c = at.1;
+                let flipped = if c.is_ascii_lowercase() { c.to_ascii_uppercase() } else { c.to_ascii_lowercase() };
+                v.push(format!("{}{}{}", &s[..at.0], flipped, &s[at.0 + 1..]));
+            }
             v.retain(|x| x != s);
             v.sort();
             v.dedup();
@@ -630,6 +636,23 @@ fn one_case(ctx: &Ctx, case: u64, l: &mut Local) {
             let mut e = parts.clone();
             e.disclosures.insert(at.min(e.disclosures.len()), String::new());
             must_reject(l, "replay-more", 50 + at as u64, &e, a, n, 0);
+        }
+        // a presented disclosure respelled after the KB-JWT was made (the same octets in the standard base64
+        // alphabet, '=' padding, a percent-escape): the KB-JWT does not cover that text
+        for (k, d) in parts.disclosures.iter().enumerate() {
+            let mut spellings: Vec<String> = vec![];
+            if d.contains('-') || d.contains('_') {
+                spellings.push(d.replace('-', "+").replace('_', "/"));
+                spellings.push(d.replacen('-', "%2D", 1).replacen('_', "%5F", 1));
+            }
+            if k < 2 {
+                spellings.push(format!("{d}="));
+            }
+            for (i, sp) in spellings.into_iter().enumerate() {
+                let mut re = parts.clone();
+                re.disclosures[k] = sp;
+                must_reject(l, "replay-respelled", (k * 4 + i) as u64, &re, a, n, 0);
+            }
         }
         // a forged (unreferenced) disclosure added
         let mut forged = parts.clone();
